@@ -219,7 +219,8 @@ def counterexample(overlay, harness_full, features=None, timeout=900, returns=Fa
     feat = ["--no-default-features"] + (["--features", features] if features else [])
     cmd = ["cargo", "kani"] + KANI_FLAGS + ["-Z", "concrete-playback", "--concrete-playback=print",
                                             "--target-dir", os.path.join(overlay, "target")] + feat + \
-          ["--harness", short, "--output-format", "terse", "--harness-timeout", "%ds" % timeout]
+          (["--harness", harness_full, "--exact"] if "::" in harness_full else ["--harness", short]) + \
+          ["--output-format", "terse", "--harness-timeout", "%ds" % timeout]
     env = {"CARGO_NET_OFFLINE": "true", "CARGO_TERM_COLOR": "never"}
     rc, out, err, wall = common.run(cmd, cwd=overlay, env=env, timeout=timeout + 300)
     text = out + "\n" + err
